@@ -201,7 +201,7 @@ Proof.
     - rewrite (src_kind_child s0 HT _ _ _ H) in Hk0. discriminate.
     - destruct (bundles_kinds s0 HT RCables RWires d _ H) as [H'|H']; rewrite Hk0 in H'; discriminate.
     - apply in_flat_map in H as [p [Hp Hy]]. destruct Hy as [<-|Hy]; [rewrite (src_kind_child s0 HT _ _ _ Hp) in Hk0; discriminate|].
-      destruct (forall2_in_r _ _ _ Fa2 p Hp) as [p' [Hp' [Hpm Himg]]]. destruct (Himg a0 Hy) as [i' [Hi'm Hi'k]].
+      destruct (forall2_in_r _ _ _ Fa2 p Hp) as [p' [Hp' [Hpm Himg]]]. destruct (proj1 Himg a0 Hy) as [i' [Hi'm Hi'k]].
       assert (Eb : i' = b) by (apply (memo_fun m4 a0 i' b (pi_fun _ _ _ Q4)); [apply Sb4, Sb3; exact Hi'm|exact Hab0]). subst i'.
       apply in_flat_map. exists p'. split; [exact Hp'|]. rewrite (Hk5 RPins p') by (pose proof (HP' p' Hp'); lia).
       destruct Ks3 as [_ Ks3]. destruct Ks4 as [_ Ks4]. rewrite Ks4, Ks3 by (pose proof (R2 p' Hp'); lia). exact Hi'k.
@@ -211,7 +211,7 @@ Proof.
     destruct (Hkeys a0 Hin) as [H|[H|[H|H]]].
     - rewrite (src_kind_child s0 HT _ _ _ H) in Hk0. discriminate.
     - apply in_flat_map in H as [p [Hp Hy]]. destruct Hy as [<-|Hy]; [rewrite (src_kind_child s0 HT _ _ _ Hp) in Hk0; discriminate|].
-      destruct (forall2_in_r _ _ _ Fa3 p Hp) as [p' [Hp' [Hpm Himg]]]. destruct (Himg a0 Hy) as [i' [Hi'm Hi'k]].
+      destruct (forall2_in_r _ _ _ Fa3 p Hp) as [p' [Hp' [Hpm Himg]]]. destruct (proj1 Himg a0 Hy) as [i' [Hi'm Hi'k]].
       assert (Eb : i' = b) by (apply (memo_fun m4 a0 i' b (pi_fun _ _ _ Q4)); [apply Sb4; exact Hi'm|exact Hab0]). subst i'.
       apply in_flat_map. exists p'. split; [exact Hp'|]. rewrite Hk6, (Hk5 RWires p') by (pose proof (HC' p' Hp'); lia).
       destruct Ks4 as [_ Ks4]. rewrite Ks4 by (pose proof (R3 p' Hp'); lia). exact Hi'k.
